@@ -180,3 +180,8 @@ Example C06_strip_inside_array_and_dict :
      = Some (s "{'/K': IndirectObject(8, 7), '/L': [IndirectObject(10, 0)]}").
 Proof. exact strip_in_array. Qed.
 Print Assumptions C06_strip_inside_array_and_dict.
+
+Example C06_close_would_lose_buffer :
+  s_buf (exec [OSeek 0; ORead None; OClose] (mkStream [1%N; 2%N] 0)) <> [1%N; 2%N].
+Proof. exact close_loses_buffer. Qed.
+Print Assumptions C06_close_would_lose_buffer.
